@@ -629,6 +629,10 @@ func c15Message(r *fw.Run, key string, b *builtMsg, faultAll bool) {
 				switch {
 				case gerr != errInjectedWrite:
 					r.Violation(key, []string{"fault_error_lost"}, wit, "C15: WriteTo did not return the writer's error (got %v)", gerr)
+				case int(gn) == len(acc)-1 && fwr.TookByteYetFailed:
+					// the byte went through WriteByte, which reports no count: a failed WriteByte "took
+					// nothing" as far as any caller can tell
+					r.Count("writebyte_took_the_byte_and_failed", 1)
 				case int(gn) != len(acc):
 					r.Violation(key, []string{"fault_count_wrong"}, wit, "C15: WriteTo returned n=%d but the writer accepted %d bytes", gn, len(acc))
 				case !strings.HasPrefix(enc, acc):
